@@ -170,7 +170,7 @@ def order_invariance(ctx, B, cfg, cap):
             ctx.violation("%s|held-error-modified|%s" % (cfg, p.name), "%s%r called with a slot that holds the error of an earlier call: that error object was %s" % (
                 p.name, tuple(a), "replaced by another object" if held["flags"][j] & xrl.F_SLOTPTR else "modified in place"),
                 dict(cfg=cfg, ops=[dict(kind=p.kind, name=p.name if p.kind == "fn" else p.op, sig=p.sig, args=a, mode=2)]))
-        orders = [("reversed", np.arange(p.n)[::-1])]
+        orders = [("repeated", np.arange(p.n)), ("reversed", np.arange(p.n)[::-1])]
         codes = [_codes(c) for c in p.cols]
         for k in range(len(codes)):
             if len(np.unique(codes[k])) < 2:
@@ -369,8 +369,8 @@ def run(ctx, B):
                        "state where a state is a whole-state key (digest of the library's writable sections and of the table object, locale, cwd, live library blocks): on a pure "
                        "library the reachable set is one state and closes after |alphabet| transitions, i.e. for histories of any length; additionally all ordered pairs (%s) and all "
                        "triples over a core are executed in long-running processes and every result is compared bit for bit with a freshly exec'd process; C and comma locale; "
-                       "order invariance: the C03 argument product of every entry point (strided) executed as one sequence in natural order, reversed and once per argument "
-                       "with that argument varying fastest, results compared tuple by tuple" % (
+                       "order invariance: the C03 argument product of every entry point (strided) executed as one sequence in natural order, a second time, reversed and once per argument "
+                       "with that argument varying fastest, and once with a slot that already holds an error, results compared tuple by tuple" % (
                            "every 3rd first op" if quick else "complete"))
     ctx.assumptions += ["argument values outside the alphabet are not covered", "state kept inside libc other than locale / cwd / stdio is not part of the key",
                         "explicit insertion into the built-in crystal collection is the documented exception and is checked to change nothing else"]
